@@ -111,6 +111,12 @@ def _create_files(  # noqa: C901, PLR0912, PLR0913
         if links is None and isinstance(storage_obj, ObjectStorage):
             links = storage_obj.odb.cache_types
 
+        failed: set[str] = set()
+
+        def _onerror(src_path, dest_path, exc, _failed=failed):
+            _failed.add(dest_path)
+            onerror(src_path, dest_path, exc)
+
         transfer(
             src_fs,
             list(src_paths),
@@ -119,7 +125,7 @@ def _create_files(  # noqa: C901, PLR0912, PLR0913
             callback=callback,
             batch_size=jobs,
             links=links,
-            on_error=onerror,
+            on_error=_onerror if onerror is not None else None,
         )
 
         _check_versioning(dest_paths, fs)
@@ -127,7 +133,9 @@ def _create_files(  # noqa: C901, PLR0912, PLR0913
         if state and isinstance(fs, LocalFileSystem):
             _infos: list[tuple[str, HashInfo, dict]] = []
             for entry, _, dest_path in args:
-                if not entry.hash_info:
+                # NOTE: whatever sits at the path of an entry that we have
+                # failed to create is not that entry's data
+                if not entry.hash_info or dest_path in failed:
                     continue
                 try:
                     _infos.append((dest_path, entry.hash_info, fs.info(dest_path)))
